@@ -649,3 +649,80 @@ def _plumbing_hook(self, f, args, kwargs):
 
 
 CALL_HOOKS.append(_plumbing_hook)
+
+
+# ----------------------------------------------------------------------------------------------------------------------
+# collections.Counter over (possibly symbolic) byte strings — used by guardrails.find_xor_key_candidates
+# ----------------------------------------------------------------------------------------------------------------------
+
+
+class SymCounter:
+    """Counter whose keys are byte strings with symbolic cells. Classes of equal keys are decided, not assumed: a new key is
+    compared with every existing class (syntactically identical cells = same class without a query; otherwise the equality is a
+    decision of the path, i.e. forks when both outcomes are feasible). Counts are therefore concrete on every path.
+    most_common follows CPython: descending count, insertion order among equal counts."""
+
+    __symx_model__ = True
+
+    def __init__(self, *a, **k):
+        if a or k:
+            raise Unsupported("Counter(...) with arguments")
+        self.keys_ = []  # SymBytes | bytes, insertion order
+        self.skeys = {}  # structural key -> class index
+        self.counts = []
+
+    def _norm(self, key):
+        key = unwrap(key)
+        if isinstance(key, (bytes, bytearray)):
+            return SymBytes(list(key))
+        if isinstance(key, SymBytes):
+            return key
+        raise Unsupported("Counter key of type %s" % type(key).__name__)
+
+    def _add(self, key, n=1):
+        key = self._norm(key)
+        sk = _cell_key(key.cells)
+        i = self.skeys.get(sk)
+        if i is None:
+            for j, other in enumerate(self.keys_):
+                if len(other.cells) != len(key.cells):
+                    continue
+                e = key.eq(other)
+                if e is False:
+                    continue
+                if e is True or truth(e):
+                    i = j
+                    break
+            if i is None:
+                i = len(self.keys_)
+                self.keys_.append(key)
+                self.counts.append(0)
+            self.skeys[sk] = i
+        self.counts[i] += n
+
+    def update(self, iterable=None):
+        if iterable is None:
+            return
+        for k in m_iter(iterable):
+            self._add(k)
+
+    def __setitem__(self, k, v):
+        raise Unsupported("Counter item assignment")
+
+    def __getitem__(self, k):
+        key = self._norm(k)
+        for j, other in enumerate(self.keys_):
+            if len(other.cells) == len(key.cells):
+                e = key.eq(other)
+                if e is True or (e is not False and truth(e)):
+                    return self.counts[j]
+        return 0
+
+    def __len__(self):
+        return len(self.keys_)
+
+    def most_common(self, n=None):
+        order = sorted(range(len(self.keys_)), key=lambda i: -self.counts[i])  # stable: insertion order among ties
+        if n is not None:
+            order = order[:n]
+        return [(self.keys_[i], self.counts[i]) for i in order]
